@@ -21,6 +21,9 @@ ANSI = re.compile(r"\x1b\[[0-9;]*m")
 def first_error_title(stderr):
     """Normalised first ERROR diagnostic: names in backticks replaced by their class."""
     text = ANSI.sub("", stderr)
+    pm = re.search(r"The application panicked.*?in (compiler/[^\s,]+), line (\d+)", text, flags=re.S)
+    if pm:
+        return f"panic at {pm.group(1)}:{pm.group(2)}"
     m = re.search(r"ERROR:\s*\n?\s*[×x]\s*(.*?)(?:\n\s*\n|\n\s*│\s*\n|$)", text, flags=re.S)
     title = m.group(1) if m else text.strip()[:200]
     title = re.sub(r"\s*│\s*", " ", title)
@@ -365,6 +368,11 @@ def eval_values(obs, rep, tier, prop):
                         if fl != "Y" and len(ids) != len(set(ids)):
                             problems.append(("C03", "lifecycle:transient:instance-shared",
                                              f"two injection sites received the same transient {ty} instance"))
+                        static_sites = sum(m for (_, _, _, m) in D.consumers(ty))
+                        if fl != "Y" and len(news[ty]) > static_sites:
+                            problems.append(("C03", "lifecycle:transient:more-constructions-than-injection-sites",
+                                             f"transient {ty} constructed {len(news[ty])} times in one request but the pipeline has "
+                                             f"only {static_sites} injection site(s) for it"))
                         if len(news[ty]) < len(set(ids)):
                             problems.append(("C03", "lifecycle:transient:fewer-constructions-than-sites",
                                              f"{len(set(ids))} distinct {ty} instances consumed but {len(news[ty])} constructed"))
@@ -507,7 +515,10 @@ def _load_plugins():
 
                 def oracle(obs, rep, tier, base_f=base_f, base_o=base_o, fams_fn=fams_fn, oracle_fn=oracle_fn):
                     lvl, cov, asm = base_o({f: obs[f] for f in base_f(tier) if f in obs}, rep, tier)
-                    lvl2, cov2, asm2 = oracle_fn({f: obs[f] for f in fams_fn(tier) if f in obs}, rep, tier)
+                    sub = {f: obs[f] for f in fams_fn(tier) if f in obs}
+                    if not sub and fams_fn(tier):  # --replay of another family's case: this plug-in has nothing to judge
+                        return lvl, cov, asm
+                    lvl2, cov2, asm2 = oracle_fn(sub, rep, tier)
                     cov = dict(cov)
                     cov["evaluations"] += cov2.get("evaluations", 0)
                     cov["distinct_nontrivial"] += cov2.get("distinct_nontrivial", 0)
